@@ -241,6 +241,26 @@ def check(case):
             case.close(v1, first[0], rtol=1e-9, what='compute_log_likelihood vs score of compute_sensitivities')
             case.close(np.sum(p1), v1, rtol=1e-9, what='sum(pointwise) vs total (same arrays)')
 
+    # the arrays in other forms (read-only, non-contiguous views, Fortran order)
+    if insup:
+        with case.clause('array_forms'):
+            from vf.core import array_forms
+            fs_sig, fs_yb, fs_y, fs_S = array_forms(sig_free), array_forms(ybar), array_forms(y), array_forms(S)
+            for k in range(len(fs_sig)):
+                a_sig, a_yb, a_y = fs_sig[k][1], fs_yb[k][1], fs_y[k][1]
+                label = fs_sig[k][0]
+                case.close(em.compute_log_likelihood(a_sig, a_yb, a_y), want, rtol=1e-9,
+                           what='log-likelihood for the arrays given as %s' % label)
+                case.close(np.asarray(em.compute_pointwise_ll(a_sig, a_yb, a_y), dtype=float), want_pw, rtol=1e-9,
+                           what='pointwise for the arrays given as %s' % label)
+            sc0, se0 = em.compute_sensitivities(sig_free.copy(), ybar.copy(), S.copy(), y.copy())
+            for (label, a_S) in fs_S:
+                ro = [f[0][1] for f in (fs_sig, fs_yb, fs_y)]
+                sc_a, se_a = em.compute_sensitivities(ro[0], ro[1], a_S, ro[2])
+                case.close(sc_a, sc0, rtol=1e-12, what='score of compute_sensitivities for the arrays given as %s' % label)
+                case.close(np.asarray(se_a, dtype=float), np.asarray(se0, dtype=float), rtol=1e-12,
+                           what='sensitivities for the model sensitivities given as %s' % label)
+
     # whole-number parameters, outputs and observations typed as integers (Python ints / int arrays) are the same
     # numbers: the results equal those of the float-typed call
     if s['fixed'] is None and not s['oos']:
